@@ -74,6 +74,8 @@ func checkC16(w *World, r *Report) {
 	r.Rule("R16.5", "upstream attempts do not share mutable TLS configuration", 3)
 	r.Rule("R16.6", "a closed carrier is seen as closed: the wrappers' Close sets the flag on every path (the reuse test consults Closed())", 2)
 	ruleSafeCloseSetsFlag(w, r, "R16.6")
+	r.Rule("R16.11", "Connect never rewrites the upstream's configured address: the next attempt on the same upstream (after a failure, after session loss) dials what was configured", 5)
+	ruleSchemeImmutable(w, r, "R16.11")
 	r.Rule("R16.10", "whenever no usable session exists, Connect runs the round over the upstreams (no hold-off turns a connection away)", 1)
 	r.Rule("R16.9", "the direct forward address is dialled for every stream network it can name", 1)
 	c16DirectDialCoversStreamNetworks(w, r)
